@@ -476,6 +476,12 @@ fn operator_conventions(rep: &Report) {
         ("deformation grids=v.deformation, @null dt=1", true),
         ("deformation grids=@null dt=1", true),
         ("deformation grids=@nothere.deformation, @null t_epoch=2000", true),
+        // deflection: the null grid is a geoid that is zero everywhere, hence no deflection (the result is (0, 0),
+        // or the input unchanged: either is accepted as "passed", NaN and not counted is not)
+        ("deflection grids=g.geoid, @null", true),
+        ("deflection grids=@null", true),
+        ("deflection grids=g.geoid", false),
+        ("deflection grids=@nothere.geoid", false),
     ] {
         rep.eval(1);
         let Ok(op) = ctx.op(def) else {
@@ -485,7 +491,9 @@ fn operator_conventions(rep: &Report) {
         let t = [0.1, 0.2, 3., 4.];
         let mut d = [Coor4D(t)];
         let n = ctx.apply(op, Fwd, &mut d).unwrap_or(9);
-        let ok = if null { n == 1 && bits4(d[0].0) == bits4(t) } else { n == 0 && d[0][0].is_nan() && d[0][1].is_nan() };
+        let unchanged = bits4(d[0].0) == bits4(t);
+        let zero_deflection = def.starts_with("deflection") && d[0][0] == 0. && d[0][1] == 0.;
+        let ok = if null { n == 1 && (unchanged || zero_deflection) } else { n == 0 && d[0][0].is_nan() && d[0][1].is_nan() };
         if !ok {
             rep.violation(&format!("a point outside all grids is not {}", if null { "passed unchanged by the null grid" } else { "failed" }), json!({"def": def, "count": n, "observed": format!("{:?}", d[0].0)}));
         }
